@@ -13,7 +13,7 @@ use std::collections::{BTreeMap, BTreeSet};
 use std::sync::atomic::{AtomicU64, Ordering};
 use std::sync::Mutex;
 
-pub use serde_json::{json, Map, Value};
+pub use serde_json::{self, json, Map, Value};
 
 pub const DEFAULT_SEED: u64 = 20260924;
 
